@@ -261,9 +261,12 @@ def identity(b, oid, clause, diffs, meta):
 
 def one_stack(b, stack, nondim, solve_for, analytic=None):
     analytic = (len(stack) > 1) if analytic is None else analytic
-    tag = "-".join(stack) + (";nondim=1" if nondim else ";nondim=0") + ";solve_for=" + "+".join(solve_for)
+    default_request = solve_for is None          # solve_for=None: the documented default is the tidal solution
+    tag = "-".join(stack) + (";nondim=1" if nondim else ";nondim=0") + ";solve_for=" + ("None" if default_request else "+".join(solve_for))
     try:
-        ex, paths, cfg = SM.run_solver(b, stack, solve_for=tuple(solve_for), nondim=nondim, analytic=analytic)
+        ex, paths, cfg = SM.run_solver(b, stack, solve_for=None if default_request else tuple(solve_for), nondim=nondim, analytic=analytic)
+        if default_request:
+            solve_for = ("tidal",)
     except SymExError as e:
         b.subset_exits.append(f"{KEY} [{tag}]: {e}")
         return
@@ -285,7 +288,7 @@ def one_stack(b, stack, nondim, solve_for, analytic=None):
     nout = 6 * nty
     out = so.full_solution_ptr.data
     Y = lambda sl, ty, q: Cx.of(out[sl * nout + ty * 6 + q])
-    meta = dict(stack=list(stack), nondim=nondim, solve_for=list(solve_for))
+    meta = dict(stack=list(stack), nondim=nondim, solve_for=list(solve_for), default_request=default_request)
     # scale factors between the solver's internal (possibly non-dimensional) layer vectors and the output: read off the real conversion
     for ty, name in enumerate(solve_for):
         spec = bc_spec(name.lower(), l, Rp, rho_b)
@@ -392,6 +395,9 @@ def stacks_for(tier):
         for name in TYPES:
             out.append((st, True, (name,)))
     out.append((["S", "L", "S"], True, ("free", "Loading", "TIDAL", "tidal", "free")))
+    for st in (["S"], ["Ls"], ["S", "Ls"], ["L", "S"]):
+        out.append((st, True, None))
+        out.append((st, False, None))
     return out
 
 
@@ -402,7 +408,7 @@ def build(tier="quick", seed=0):
         one_stack(b, stack, nd, sf)
     from contracts import tv_radial
     tv_radial.interfaces(b, seed)
-    b.samples.append(dict(stacks=len(sc), example=dict(stack=sc[100][0], nondim=sc[100][1], solve_for=list(sc[100][2]))))
+    b.samples.append(dict(stacks=len(sc), example=dict(stack=sc[100][0], nondim=sc[100][1], solve_for=list(sc[100][2] or ["<None>"]))))
     b.explanation = ("whole-function symbolic execution of the real cf_radial_solver and callees per layer stack; surface clauses proved from the zgesv contract by an exact linear "
                      "certificate, interface clauses as exact rational identities in the opaque layer solutions")
     b.assume("layer stacks enumerated: all 1- and 2-layer stacks over the 8 layer kinds (every adjacent pair of kinds), 12 three-layer and 5 four/five-layer stacks, 4 slices per layer; "
